@@ -42,6 +42,10 @@ fn main() {
         c04::one(&args[2], &args[3]);
         return;
     }
+    if cmd == "c08-digests" {
+        println!("{}", c08::digests(thorough));
+        return;
+    }
     if cmd == "replay" {
         let path = &args[2];
         let txt = std::fs::read_to_string(path).expect("replay file");
